@@ -183,7 +183,11 @@ func (c *conn) run(query string, args []Value) (*resultSet, *execResult, []Write
 	}
 	if m := reShowVar.FindStringSubmatch(q); m != nil {
 		rs := &resultSet{cols: []*Column{{Name: "Variable_name", Type: "VARCHAR"}, {Name: "Value", Type: "VARCHAR"}}}
-		vars := map[string]string{"auto_increment_increment": "1", "auto_increment_offset": "1", "version": s.version}
+		step := s.autoIncStep
+		if step < 1 {
+			step = 1
+		}
+		vars := map[string]string{"auto_increment_increment": fmt.Sprint(step), "auto_increment_offset": "1", "version": s.version}
 		for k, v := range vars {
 			if likeMatch(k, m[1]) {
 				rs.rows = append(rs.rows, []Value{k, v})
@@ -1219,11 +1223,20 @@ func (c *conn) execInsert(x *ast.InsertStmt, args []Value) (*resultSet, *execRes
 				if !given[i] {
 					switch {
 					case col.AutoInc:
-						vals[i] = t.autoInc
-						if res.lastID == 0 {
-							res.lastID = t.autoInc
+						// generated values are offset 1 + n*step (auto_increment_increment), above what is used
+						step := c.srv.autoIncStep
+						if step < 1 {
+							step = 1
 						}
-						t.autoInc++
+						next := t.autoInc
+						if r := (next - 1) % step; r != 0 {
+							next += step - r
+						}
+						vals[i] = next
+						if res.lastID == 0 {
+							res.lastID = next
+						}
+						t.autoInc = next + step
 					case col.HasDef:
 						vals[i] = col.Default
 					case col.Nullable:
